@@ -7,9 +7,9 @@
     optll <freqs> <L>            -> minimum cost | none
     tableopt <freqs> <lens>      -> ok | cheaper <cost> <optcost> | toolong <max> | nocode
     maketree <lens>              -> ok | incomplete | oversubscribed
-    lookup <lens> <v: 16 hex>    -> <internal symbol> <length> | oob | <verdict>
+    lookup <lens> <v: 16 hex,…>  -> per window "<internal symbol> <length>" | oob, comma separated; or <verdict>
     tables <lens>                -> base[1..21] (hex) ; count[0..20] ; perm ; start   | <verdict>
-    decode <lens> <v: 16 hex>    -> Spec.decodeSym on the 64 bits of v: <symbol index> <length> | none
+    decode <lens> <v: 16 hex,…>  -> Spec.decodeSym on the 64 bits of each v: "<symbol index> <length>" | none
     dummy <as>                   -> <cl0> <lens of the dummy table as encode.c builds it>
 -/
 import LbzVerif.Spec.Prefix
@@ -41,10 +41,7 @@ def toHex16 (v : Nat) : String :=
 def verdictName : Model.Canon.Verdict → String
   | .ok => "ok" | .incomplete => "incomplete" | .oversubscribed => "oversubscribed"
 
-def dummyLens (as : Nat) : Nat × List Nat :=
-  let c := Gen.cl0 as
-  let nShort := (2 <<< c) - as
-  (c, (List.range as).map (fun v => if v < nShort then c else c + 1))
+def dummyLens (as : Nat) : Nat × List Nat := (Gen.cl0 as, Model.Canon.dummyLens as)
 
 def handle (cmd : String) (args : List String) : Option String :=
   match cmd, args with
@@ -76,12 +73,12 @@ def handle (cmd : String) (args : List String) : Option String :=
   | "maketree", [l] => some <| match parseList l with
     | some lens => verdictName (Model.Canon.verdict lens)
     | none => "bad-arg"
-  | "lookup", [l, v] => some <| match parseList l, parseHex v with
-    | some lens, some v =>
+  | "lookup", [l, v] => some <| match parseList l, (v.splitOn ",").mapM parseHex with
+    | some lens, some vs =>
       match Model.Canon.makeTree lens with
-      | (_, some t) => match Model.Canon.lookup t v with
+      | (_, some t) => ",".intercalate (vs.map (fun v => match Model.Canon.lookup t v with
         | some (s, k) => s!"{s} {k}"
-        | none => "oob"
+        | none => "oob"))
       | (vd, none) => verdictName vd
     | _, _ => "bad-arg"
   | "tables", [l] => some <| match parseList l with
@@ -92,11 +89,12 @@ def handle (cmd : String) (args : List String) : Option String :=
           ++ showList t.perm ++ " ; " ++ showList t.start
       | (vd, none) => verdictName vd
     | none => "bad-arg"
-  | "decode", [l, v] => some <| match parseList l, parseHex v with
-    | some lens, some v =>
-      match Spec.Prefix.decodeSym lens (Spec.Prefix.bitsMSB 64 v) with
-      | some (i, rest) => s!"{i} {64 - rest.length}"
-      | none => "none"
+  | "decode", [l, v] => some <| match parseList l, (v.splitOn ",").mapM parseHex with
+    | some lens, some vs =>
+      ",".intercalate (vs.map (fun v =>
+        match Spec.Prefix.decodeSym lens (Spec.Prefix.bitsMSB 64 v) with
+        | some (i, rest) => s!"{i} {64 - rest.length}"
+        | none => "none"))
     | _, _ => "bad-arg"
   | "dummy", [a] => some <| match a.toNat? with
     | some as => let (c, ls) := dummyLens as; s!"{c} {showList ls}"
